@@ -28,6 +28,7 @@ pub type JwkThumbprintSha256 = [u8; SHA256_LEN];
 ///
 /// [More Info](https://tools.ietf.org/html/rfc7517#section-4)
 #[derive(Clone, Debug, PartialEq, Eq, serde::Deserialize, serde::Serialize)]
+#[serde(try_from = "DeserializedJwk")]
 pub struct Jwk {
   /// Key Type.
   ///
@@ -99,6 +100,48 @@ pub struct Jwk {
   /// [More Info](https://tools.ietf.org/html/rfc7517#section-4)
   #[serde(flatten)]
   pub(super) params: JwkParams,
+}
+
+/// Mirror of [`Jwk`] used for deserialization: the parameters are deserialized as an untagged enum, hence it
+/// must be checked afterwards that their family is the one declared by `kty`.
+#[derive(serde::Deserialize)]
+struct DeserializedJwk {
+  kty: JwkType,
+  #[serde(rename = "use")]
+  use_: Option<JwkUse>,
+  key_ops: Option<Vec<JwkOperation>>,
+  alg: Option<String>,
+  kid: Option<String>,
+  x5u: Option<Url>,
+  x5c: Option<Vec<String>>,
+  x5t: Option<String>,
+  #[serde(rename = "x5t#S256")]
+  x5t_s256: Option<String>,
+  #[serde(flatten)]
+  params: JwkParams,
+}
+
+impl TryFrom<DeserializedJwk> for Jwk {
+  type Error = Error;
+
+  fn try_from(value: DeserializedJwk) -> Result<Self> {
+    if value.kty != value.params.kty() {
+      return Err(Error::InvalidParam("`kty` does not match the key parameters"));
+    }
+
+    Ok(Self {
+      kty: value.kty,
+      use_: value.use_,
+      key_ops: value.key_ops,
+      alg: value.alg,
+      kid: value.kid,
+      x5u: value.x5u,
+      x5c: value.x5c,
+      x5t: value.x5t,
+      x5t_s256: value.x5t_s256,
+      params: value.params,
+    })
+  }
 }
 
 impl Jwk {
